@@ -2,17 +2,28 @@ from common import COMMON_TB
 
 CONFIG = {
     "lean_modules": ["SA.Props.C19"],
-    "level_text": "Theorems C19_close_once / C19_no_close_no_effect / C19_repeat_ok_and_closed_query proved in Lean by structural "
-                  "induction over every composition (any depth) and induction over every op sequence; the model is tied to the Go "
-                  "wrappers by running both on enumerated and random compositions and comparing every return value and close count.",
+    "level_text": "Theorems C19_never_twice / C19_close_closes_subtree_once / C19_closed_implies_closed / C19_closed_false_before "
+                  "proved in Lean for every composition (any depth) and every sequence of ops addressed to any wrapper handle "
+                  "(outermost or inner, including handles shared through the constructors' reuse rule), by a state invariant + "
+                  "induction over op sequences; kernel-checked witness C19_witness_pair_or that the `||` variant of the pair's "
+                  "status falsifies 'reports closed => is closed'; the pair's connective is a fact regenerated from "
+                  "readerwriter_stream.go; the model is tied to the Go wrappers by running both on enumerated and random "
+                  "compositions with node-addressed ops and comparing every return value and close count; per-op monitor of "
+                  "the property on the real objects.",
     "level_note": "Trusted: Lean kernel (axioms propext, Quot.sound), the hand-written model SA.Model.Wrappers and the sampled "
-                  "correspondence; sequential calls; distinct underlying resources.",
-    "technique": "Lean 4 proof (structural induction + invariant over op sequences) + model/code differential correspondence",
+                  "correspondence; sequential calls; distinct underlying resources that nobody closes behind the wrappers' "
+                  "back (ops on bare resource handles are not generated and not covered by the theorems).",
+    "technique": "Lean 4 proof (state invariant + induction over node-addressed op sequences) + regenerated fact + model/code differential correspondence",
     "components": [{"name": "wrap"}],
     "rule": "wrap: every well-typed unary composition of the real constructors up to depth 3 (quick) / 4 (thorough) "
-            "x 4 resource variants (Closed()? x close fails?) x 8 op scripts, plus random trees with reader+writer "
-            "pairs up to depth 5 and random op lists up to 12 ops; non-trivial = outermost is a wrapper and at least "
-            "one Close is issued; distinct = distinct op line",
-    "trusted_base": COMMON_TB + ["model SA.Model.Wrappers hand-written; tied by per-op comparison of return values and per-resource close counts"],
-    "assumptions": ["calls on one wrapper are sequential", "resources under one composition are distinct objects"],
+            "x 4 resource variants x 8 op scripts on the outermost wrapper; every depth-2 chain x every order of up to 4 of "
+            "{Close, Closed on each handle}; every depth-3 (4) chain x every order of up to 3 handle closes with all handles "
+            "queried in between; pairs from plain / fresh-wrapped / already-safe (shared) readers and writers under 4 (8) "
+            "outer wrappers x every order of up to 3-4 of {close a half, query/close the pair, query/close the outer}; "
+            "plus random trees with pairs up to depth 5 and random handle-addressed op lists up to 14 ops; "
+            "non-trivial = at least one Close is issued; distinct = distinct op line",
+    "trusted_base": COMMON_TB + ["model SA.Model.Wrappers hand-written; tied by per-op comparison of return values and per-resource close counts",
+                                 "fact c19PairClosedAnd read from ReadWriteCloser.Closed() by go/extract/x_c19.go"],
+    "assumptions": ["calls on the wrappers of one composition are sequential",
+                    "resources under one composition are distinct objects and are closed only through the wrappers"],
 }
